@@ -9,6 +9,12 @@ import (
 	"verifharness/internal/c06"
 	"verifharness/internal/c10"
 	"verifharness/internal/c12"
+	"verifharness/internal/c14"
+	"verifharness/internal/c15"
+	"verifharness/internal/c16"
+	"verifharness/internal/c17"
+	"verifharness/internal/c18"
+	"verifharness/internal/c19"
 	"verifharness/internal/common"
 )
 
@@ -18,10 +24,18 @@ var subs = map[string]sub{
 	"c06": c06.Run,
 	"c10": c10.Run,
 	"c12": c12.Run,
+	"c14": c14.Run,
+	"c15": c15.Run,
+	"c16": c16.Run,
+	"c17": c17.Run,
+	"c18": c18.Run,
+	"c19": c19.Run,
 }
 
 var gens = map[string]func(outDir string) error{
-	"registry": c06.GenRegistry,
+	"registry":  c06.GenRegistry,
+	"ruletable": c15.GenRuleTable,
+	"ir":        c17.GenIR,
 }
 
 func main() {
